@@ -362,7 +362,9 @@ func (sc *Scheduler) Signal(
 		defer func() {
 			done <- true
 		}()
-		for g.IsRunning() {
+		// (a signalled step is labelled canceled at once; wait for its
+		// command to end, not for its label)
+		for g.IsRunning() || g.isExecuting() {
 			time.Sleep(sc.pause)
 		}
 	}
